@@ -555,6 +555,11 @@ func (g *HistGen) genUpdate() {
 			bad = S("ten")
 		}
 		op.Expr = HexS("SET " + ctx.name([]byte("v")) + " = " + ctx.value(S("touched")) + ", " + ctx.name([]byte(attr)) + " = " + ctx.value(bad) + " REMOVE " + ctx.name([]byte("s1")))
+	} else if g.r.Chance(g.p.BadPct / 3) {
+		// no UpdateExpression at all (a nil pointer in the request): an error like an empty text, never a fault
+		op.NoExpr = true
+		op.GarbageUpdate = true
+		op.Expr = ""
 	} else if g.r.Chance(g.p.BadPct) {
 		op.GarbageUpdate = true
 		op.Expr = HexS(pick(g.r, []string{"SET", "SET v = ", "v = :x", "SET v = :x SET v = :x", "FOO v :x", "SET v = :x,", "REMOVE", "ADD v"}))
